@@ -259,9 +259,50 @@ func (g *Gen) objectTypes() []string {
 	return out
 }
 
+// condsFor lists type conditions usable in a selection set on type tn: none, the type itself,
+// an unrelated object type and - with Abstract - the interfaces / unions related to it.
+func (g *Gen) condsFor(tn string) []string {
+	conds := []string{"", tn, tn}
+	ots := g.objectTypes()
+	conds = append(conds, ots[g.pick(len(ots))])
+	if !g.Abstract {
+		return conds
+	}
+	t := g.U.Types[tn]
+	switch t.Kind {
+	case "OBJECT":
+		conds = append(conds, t.Ifaces...)
+		for un, ut := range g.U.Types {
+			if ut.Kind == "UNION" {
+				for _, m := range ut.Members {
+					if m == tn {
+						conds = append(conds, un)
+					}
+				}
+			}
+		}
+	case "INTERFACE":
+		for on, ot := range g.U.Types {
+			for _, i := range ot.Ifaces {
+				if i == tn {
+					conds = append(conds, on, on)
+				}
+			}
+		}
+	case "UNION":
+		conds = append(conds, t.Members...)
+		conds = append(conds, t.Members...)
+	}
+	sort.Strings(conds[4:])
+	return conds
+}
+
 // sels generates a non-empty selection set valid on type tn.
 func (g *Gen) sels(tn string, depth int) []Sel {
 	t := g.U.Types[tn]
+	if t.Kind == "UNION" && depth == 0 {
+		return []Sel{{K: "field", Name: "__typename", Dirs: []Dir{}, Args: []Arg{}}}
+	}
 	n := 1 + g.pick(3)
 	var out []Sel
 	fields := sortedKeys(t.Fields)
@@ -274,16 +315,14 @@ func (g *Gen) sels(tn string, depth int) []Sel {
 				s.Alias = "k___typename"
 			}
 			out = append(out, s)
-		case c == 1 && depth > 0:
-			cond := ""
+		case (c == 1 || (t.Kind == "UNION" && c > 2) || (g.Abstract && t.Kind == "INTERFACE" && c > 5)) && depth > 0:
+			conds := g.condsFor(tn)
+			cond := conds[g.pick(len(conds))]
+			if t.Kind == "UNION" && cond == "" {
+				cond = t.Members[g.pick(len(t.Members))]
+			}
 			target := tn
-			switch g.pick(4) {
-			case 0:
-			case 1, 2:
-				cond = tn
-			case 3:
-				ots := g.objectTypes()
-				cond = ots[g.pick(len(ots))]
+			if cond != "" {
 				target = cond
 			}
 			out = append(out, Sel{K: "inline", Cond: cond, Dirs: g.dirs(), Sels: g.sels(target, depth-1)})
@@ -304,9 +343,9 @@ func (g *Gen) sels(tn string, depth int) []Sel {
 			g.nfrag++
 			name := fmt.Sprintf("F%d", g.nfrag)
 			cond := tn
-			if g.pick(5) == 0 {
-				ots := g.objectTypes()
-				cond = ots[g.pick(len(ots))]
+			if g.pick(5) == 0 || g.Abstract {
+				conds := g.condsFor(tn)
+				cond = conds[1+g.pick(len(conds)-1)]
 			}
 			body := g.sels(cond, depth-1)
 			g.frags = append(g.frags, Frag{Name: name, Cond: cond, Sels: body})
@@ -316,10 +355,11 @@ func (g *Gen) sels(tn string, depth int) []Sel {
 			fd := t.Fields[fn]
 			base := fd.Type.Base()
 			bt, composite := g.U.Types[base]
-			if composite && (bt.Kind == "UNION" || bt.Kind == "INTERFACE") && !g.Abstract {
-				if bt.Kind == "UNION" {
-					continue
-				}
+			if composite && bt.Kind == "UNION" && !g.Abstract {
+				continue
+			}
+			if t.Kind == "UNION" {
+				continue
 			}
 			if composite && depth == 0 {
 				continue
